@@ -27,11 +27,15 @@ shutil.copy(patch, d + '/patch.diff'); shutil.copy(demo, d + '/demo.py')
 notes = open('%s/notes%s.txt' % (out, i)).read() if os.path.exists('%s/notes%s.txt' % (out, i)) else ''
 # run our check on /repo with the patch applied
 assert subprocess.run('git diff --quiet', shell=True, cwd='/repo').returncode == 0, '/repo dirty'
+evf = '/verif/evidence/%s.json' % check_prop
+evbak = open(evf).read() if os.path.exists(evf) else None
 subprocess.run('git apply %s' % patch, shell=True, cwd='/repo', check=True)
 try:
     p = subprocess.run('./check %s quick' % check_prop, shell=True, cwd='/verif', stdout=subprocess.PIPE, stderr=subprocess.STDOUT, text=True, timeout=3600)
 finally:
     subprocess.run('git checkout -- .', shell=True, cwd='/repo')
+    if evbak is not None:
+        open(evf, 'w').write(evbak)   # evidence files must come from runs on the unchanged tree
 viol = [l for l in p.stdout.split('\n') if l.startswith('VIOLATION')]
 meta = dict(property=prop, breaks=notes.strip(), needs_to_manifest=notes.strip(),
             confirmed=dict(demo_on_clean_exit=rc0, demo_on_patched_exit=rc1, pytest_tail=ot.strip().split('\n')[-1],
